@@ -251,6 +251,9 @@ def build_shapes(reg):
         "n_drop": "nat", "drop_abort": "bool", "n_onclose": "nat", "onclose_clean": "bool", "onclose_code": "opt:int",
         "onclose_reason": "opt:str", "delivered": "list:bytes", "delivered_binary": "list:bool",
         "pongs_received": "list:bytes", "timers_armed": "nat", "wire": "bytes",
+        # message level view of the frames emitted so far (updated by sendFrame only)
+        "cur_msg": "bytes", "in_msg": "bool", "sent_msgs": "list:bytes", "sent_binary": "list:bool",
+        "cur_binary": "bool", "wellformed": "bool",
     }, ghost=True)
     # the UTF-8 validator: contracts proved in C09, used here as assumed callee contracts
     from . import c09
